@@ -319,6 +319,30 @@ def _run_random_case(case, ctx):
                     ctx.violation(dict(facts, failure="wrong_monomial", form="rows"),
                                   "aligned exponent rows differ or repeat", case)
                 return
+            elif op == "reuse":
+                # the operand is used again after it was differentiated / evaluated
+                name = names[case["var"]]
+                numpoly.derivative(poly, name)
+                numpoly.gradient(poly)
+                poly(**{n: 1 for n in names})
+                other = numpoly.polynomial_from_attributes([[2] * len(names)], [3], names=names)
+                om = M.wrap(M.MP.from_rows(names, [[2] * len(names)], [3]))
+                for label, g_, w_ in (("product", poly * other, M.m_mul(pm, om)),
+                                      ("pickle", pickle.loads(pickle.dumps(poly)), pm),
+                                      ("sum", poly + other, M.m_add(pm, om)),
+                                      ("derivative", numpoly.derivative(poly, name),
+                                       M.m_map(lambda e: e.derivative(name), pm))):
+                    problem = O.mismatch(g_, w_)
+                    if problem:
+                        ctx.violation(dict(facts, failure="wrong_monomial", form=label),
+                                      f"operand reused after derivative/gradient/call: {label}: "
+                                      f"{problem[1]}", case)
+                        return
+                rows_now = sorted(tuple(int(v) for v in r) for r in poly.exponents)
+                if rows_now != sorted(tuple(r) for r in rows):
+                    ctx.violation(dict(facts, failure="wrong_monomial", form="exponents"),
+                                  f"exponents of the reused operand changed: {rows_now} vs {rows}", case)
+                return
             elif op == "pickle":
                 got, want = pickle.loads(pickle.dumps(poly, protocol=case["protocol"])), pm
             elif op == "arith":
@@ -355,7 +379,8 @@ def gen_random(rng):
         if r not in rows:
             rows.append(r)
     coefs = [rng.choice([1, -1, 2, 3, -5]) for _ in rows]
-    op = rng.choice(["power", "derivative", "evaluate", "substitute", "align", "pickle", "arith"])
+    op = rng.choice(["power", "derivative", "evaluate", "substitute", "align", "pickle", "arith",
+                     "reuse", "reuse"])
     case = {"op": op, "names": names, "rows": rows, "coefs": coefs}
     if op == "power":
         case["k"] = rng.choice([2, 2, 3])
@@ -366,8 +391,18 @@ def gen_random(rng):
             if r not in uniq:
                 uniq.append(r)
         case["rows"], case["coefs"] = uniq, coefs[:len(uniq)]
-    if op in ("derivative", "substitute"):
+    if op in ("derivative", "substitute", "reuse"):
         case["var"] = rng.randrange(nn)
+    if op == "reuse":
+        # every term contains the variable (positive exponent)
+        for r in case["rows"]:
+            r[case["var"]] = max(r[case["var"]], rng.choice([1, 3, 150]))
+        uniq, ucoef = [], []
+        for r, c in zip(case["rows"], case["coefs"]):
+            if r not in uniq:
+                uniq.append(r)
+                ucoef.append(c)
+        case["rows"], case["coefs"] = uniq, ucoef
     if op == "substitute":
         # substitution raises the argument to the exponent by repeated
         # multiplication: keep the substituted exponent small
@@ -415,9 +450,22 @@ SPECIAL_CODES = [0x7F, 0x80, 0x85, 0xA0, 0xAD, 0xFF, 0x100, 0x1680, 0x2000, 0x20
 
 
 def run_text(spec, ctx):
+    import shutil
+    import tempfile
+
+    scratch = tempfile.mkdtemp(prefix="numpoly-verif-c20-")
+    try:
+        _run_text(spec, ctx, scratch)
+    finally:
+        shutil.rmtree(scratch, ignore_errors=True)
+
+
+def _run_text(spec, ctx, scratch):
+    import os
+
     import numpoly
 
-    exps = list(range(0, 400 if spec["tier"] == "quick" else 2000))
+    exps = list(range(0, 300 if spec["tier"] == "quick" else 2000))
     exps += [code - 59 for code in SPECIAL_CODES if code - 59 >= 0]
     exps += [1000, 5000, 54999, 65535 - 59, 65536 - 59, 70000]
     for e in exps:
@@ -435,24 +483,38 @@ def run_text(spec, ctx):
             want = numpy.empty(2, dtype=object)
             for k in range(2):
                 want[k] = M.MP.from_rows(names, rows, [c[k] for c in coefs])
-            try:
-                with warnings.catch_warnings():
-                    warnings.simplefilter("ignore")
-                    poly = numpoly.polynomial_from_attributes(rows, coefs, names=names)
-                    handle = io.StringIO()
-                    numpoly.savetxt(handle, poly)
-                    handle.seek(0)
-                    back = numpoly.loadtxt(handle)
-            except Exception:  # an error is the accepted outcome for text files
-                ctx.count("text_raised")
-                ctx.end()
-                continue
-            problem = O.mismatch(back, want, rtol=1e-12)
-            if problem is not None:
-                ctx.violation({"op": "text", "failure": "wrong_monomial", "band": band(e),
-                               "key_code": e + 59},
-                              f"exponent {e} (key code {e + 59:#x}) saved and loaded as a different "
-                              f"polynomial: {problem[1]}", case)
+            for route in ("stringio", "bytesio", "path-latin1", "path-utf8", "path-default"):
+                try:
+                    with warnings.catch_warnings():
+                        warnings.simplefilter("ignore")
+                        poly = numpoly.polynomial_from_attributes(rows, coefs, names=names)
+                        if route == "stringio":
+                            handle = io.StringIO()
+                            numpoly.savetxt(handle, poly)
+                            handle.seek(0)
+                            back = numpoly.loadtxt(handle)
+                        elif route == "bytesio":
+                            handle = io.BytesIO()
+                            numpoly.savetxt(handle, poly)
+                            handle.seek(0)
+                            back = numpoly.loadtxt(handle)
+                        else:
+                            path = os.path.join(scratch, f"e{e}-{ndim}.txt")
+                            enc = {"path-latin1": {"encoding": "latin1"},
+                                   "path-utf8": {"encoding": "utf-8"}, "path-default": {}}[route]
+                            numpoly.savetxt(path, poly, **enc)
+                            back = numpoly.loadtxt(path, **enc)
+                except Exception:  # an error is the accepted outcome for text files
+                    ctx.count("text_raised")
+                    continue
+                ctx.count("text_loaded")
+                problem = O.mismatch(back, want, rtol=1e-12)
+                if problem is not None:
+                    ctx.violation({"op": "text", "failure": "wrong_monomial", "band": band(e),
+                                   "key_code": e + 59, "route": route},
+                                  f"exponent {e} (key code {e + 59:#x}) saved and loaded ({route}) as "
+                                  f"a different polynomial: {problem[1]}", case)
+                    break
             ctx.end()
     ctx.sample({"op": "text", "exponent": 74, "ndim": 1})
 
